@@ -118,6 +118,8 @@ def prepare_param_info(model: FitModelInfo, **kwargs) -> (FitParamInfo, FitModel
 
     if parguess and any(not isinstance(guess, Real) for guess in parguess):
         raise TypeError("The guess parameters provided are not real numbers!")
+    if parguess:
+        parguess = [float(guess) for guess in parguess]  # scipy cannot cast every Real
 
     parnames = kwargs.get("parnames", prepare_param_names(model))
     validate_param_info(parnames, "parnames", constraints)
